@@ -139,6 +139,20 @@ class Checker:
                 except Exception as e:
                     out.append((f"C15|reencode-error|{type(e).__name__}:{str(e)[:40]}", f"parsed message cannot be encoded: {type(e).__name__}: {e}", case))
                 ctx.klass("reencoded")
+        # the caller edits the parsed message; parsing the SAME text again still gives the original content
+        if not out:
+            snap = (m2.PGN, m2.id, m2.source, m2.destination, m2.priority, [(g.id, repr(g.value), repr(g.raw_value)) for g in m2.fields])
+            m2.source, m2.destination, m2.priority = 99, 98, 1
+            for g in m2.fields:
+                g.value, g.raw_value = "edited by the caller", -5
+            del m2.fields[1:]
+            try:
+                m3 = self.Msg.from_json(text)
+                again = (m3.PGN, m3.id, m3.source, m3.destination, m3.priority, [(g.id, repr(g.value), repr(g.raw_value)) for g in m3.fields])
+            except Exception as e:
+                again = ("error", type(e).__name__)
+            if again != snap:
+                out.append(("C15|second-parse-differs", "from_json() of the same text gives another message after the caller edited the first result", case))
         return out, not native
 
 
@@ -232,6 +246,19 @@ def dump_case(entries, items, tmpdir, exclude=(), units=0, netmap=False, relativ
     return out, len(exp), len(returned)
 
 
+def _non_ascii_item():
+    from .. import gen
+    d = canboat.db().by_key["126996/productInformation"]
+    bp, bn, _ = gen.benign_payload(d)
+    data = bytearray(bp.to_bytes(bn, "little"))
+    txt = "Ålesund-é ° µ".encode("utf-8")
+    data[4:36] = txt + b" " * (32 - len(txt))
+    return {"kind": "combined", "pgn": 126996, "src": 1, "dest": 255, "data": bytes(data), "msg": 9999}
+
+
+NON_ASCII_ITEM = _non_ascii_item()
+
+
 def _dump(ctx: Ctx, item):
     n, = item
     db = canboat.db()
@@ -245,6 +272,10 @@ def _dump(ctx: Ctx, item):
 
         def one(entries, items, exclude, units, netmap, relative):
             ctx.count()
+            if (len(items) + units) % 3 == 0:
+                # a device whose product information carries non-ASCII text (delivered pre-assembled)
+                items = list(items[: len(items) // 2]) + [NON_ASCII_ITEM] + list(items[len(items) // 2:])
+                ctx.klass("dump_history_with_non_ascii_text")
             res, n_exp, n_ret = dump_case(entries, items, tmpdir, exclude, units, netmap, relative)
             if relative:
                 ctx.klass("dump_relative_path_then_chdir")
